@@ -205,6 +205,19 @@ CHECKS = {
          "from the result path of the code and act as a regression oracle; TLC. Exhaustive over abstract structure, sampled over leaves.",
     technique="TLA+ spec + TLC; TLC-enumerated abstract values concretised and run through the real serializers and call path; TLC trace validation",
     ref="6/C01"),
+ "C04": dict(
+    category="model_checking",
+    text="ClassTag.tla states, per tag class (25 families of names), exception flag and application registration, the only permitted reactions "
+         "of the decoder (instance of one class of the closed set, the application's converter, or an error) and TLC checks OnlyClosedSet / "
+         "DunderNeverBuilt / ForeignNeverBuilt; Gen_ClassTag.tla enumerates tag class x flag x position of the tagged dict (top, in list / "
+         "dict / tuple, deep, as exception arg / attribute, inside an exception wrapper, as a state member) x member shape (minimal, plain, "
+         "constructor-friendly, hostile args / attributes / state, nested tags); each case is concretised with several tags per class (all tags "
+         "for the dangerous families), encoded with each real serializer and decoded with the real loads and loadsCall under an interpreter "
+         "audit hook, a sys.modules snapshot and a census of every type reachable in the result; TLC validates per decode (Trace_ClassTag.tla).",
+    note="Trusted: the tag tables, the type census, the audit-event selection (compile is not monitored: serpent uses ast.parse); TLC. Tag "
+         "strings are a table plus rotation, not all strings.",
+    technique="TLA+ spec + TLC; TLC-enumerated hostile payload shapes decoded by the real serializers under audit; TLC trace validation (monitor)",
+    ref="6/C04"),
 }
 NOT_YET = {}
 ALL = ["C%02d" % i for i in range(1, 21)]
